@@ -279,11 +279,16 @@ impl Analyzer<'_> {
       BlockKind::Case => {}
       BlockKind::Function => {}
       BlockKind::Loop => {}
-      _ => {
-        if self.scope.found_break.is_none() {
-          self.scope.found_break = found_break;
+      _ => match found_break {
+        // An unlabelled break is what the enclosing loop or switch case looks
+        // for; a labelled break found earlier must not hide it.
+        Some(None) => self.scope.found_break = Some(None),
+        _ => {
+          if self.scope.found_break.is_none() {
+            self.scope.found_break = found_break;
+          }
         }
-      }
+      },
     };
 
     if let Some(end) = end {
@@ -387,8 +392,11 @@ impl Visit for Analyzer<'_> {
 
   fn visit_break_stmt(&mut self, n: &BreakStmt) {
     if let Some(label) = &n.label {
-      let label = label.to_id();
-      self.scope.found_break = Some(Some(label));
+      // Keep an unlabelled break that was found earlier (see `with_child_scope`).
+      if self.scope.found_break != Some(None) {
+        let label = label.to_id();
+        self.scope.found_break = Some(Some(label));
+      }
     } else {
       self.scope.found_break = Some(None);
     }
